@@ -19,6 +19,7 @@ def parseOp (ws : List String) : Option Op :=
   | ["rvs", n, r] => do some (.rvs (← parseNat? n) (← parseBool? r))
   | ["reset", k] => do some (.reset (← parseInt? k))
   | ["direct", n] => do some (.direct (← parseNat? n))
+  | ["set"] => some .setPars
   | _ => none
 
 def stepLine (d : Dist) (line : String) : Dist × String :=
